@@ -140,10 +140,10 @@ func CoqList(xs []string) string { return "[" + strings.Join(xs, "; ") + "]" }
 
 // SkelOpt configures skeleton extraction.
 type SkelOpt struct {
-	Calls   map[string]bool // selector / function names reported as Call
-	Assigns map[string]bool // assigned field names (last selector component) reported as Assign
-	Conds   bool            // print if-conditions as source text (otherwise "")
-	Branches bool           // report continue / break as Cont / Brk
+	Calls    map[string]bool // selector / function names reported as Call
+	Assigns  map[string]bool // assigned field names (last selector component) reported as Assign
+	Conds    bool            // print if-conditions as source text (otherwise "")
+	Branches bool            // report continue / break as Cont / Brk
 	ArgCalls map[string]bool // calls reported with their argument text: Call "name(args)"
 }
 
